@@ -964,5 +964,11 @@ func (s *clientSocket) onClose(reason Reason) {
 		return
 	}
 	s.setID("")
-	s.disconnectHandlers.forEach(func(handler *ClientSocketDisconnectFunc) { (*handler)(reason) }, true)
+	// The disconnect handlers take their turn in the queue of the socket (they did not run on the
+	// caller's goroutine before either). `onConnect` runs in that queue: if the connection is closed
+	// while it is at work, the connect handlers run first and the disconnect handlers after them,
+	// not the other way around.
+	s.packetRunner.add(func() {
+		s.disconnectHandlers.forEach(func(handler *ClientSocketDisconnectFunc) { (*handler)(reason) }, false)
+	})
 }
